@@ -163,3 +163,49 @@ package vm
 //@   ensures[C08] err == nil && len(result0) == 0 && len(stack.data) == old(len(stack.data)) - 1
 //@   ensures[C08] @value X(stack) == evm_sar(old(X(stack)), old(Y(stack)))
 //@   nopanic[C07,C08]
+
+// ---- world state as seen through the vm.StateDB interface (ghost model) -------------------
+// bal: balance per address; nonces: nonce per address; refundctr: the refund counter.
+// The interface-method contracts below are assumed at call sites (trusted); C09 proves the
+// journalling implementation in core/state separately.
+//@ ghost bal (Array (Array (_ BitVec 64) (_ BitVec 8)) Int)
+//@ ghost nonces (Array (Array (_ BitVec 64) (_ BitVec 8)) (_ BitVec 64))
+//@ ghost refundctr (_ BitVec 64)
+
+//@ type StateDB.GetBalance
+//@   trusted
+//@   ensures result != nil && big(result) == bal[arg0] && notconst(result)
+//@   assigns nothing
+
+//@ type StateDB.SubBalance
+//@   trusted
+//@   ensures bal == store(old(bal), arg0, old(bal)[arg0] - old(big(arg1)))
+//@   assigns bal
+
+//@ type StateDB.AddBalance
+//@   trusted
+//@   ensures bal == store(old(bal), arg0, old(bal)[arg0] + old(big(arg1)))
+//@   assigns bal
+
+//@ type StateDB.GetNonce
+//@   trusted
+//@   ensures result == nonces[arg0]
+//@   assigns nothing
+
+//@ type StateDB.SetNonce
+//@   trusted
+//@   ensures nonces == store(old(nonces), arg0, arg1)
+//@   assigns nonces
+
+//@ type StateDB.GetRefund
+//@   trusted
+//@   ensures result == refundctr
+//@   assigns nothing
+
+//@ type StateDB.Exist
+//@   trusted
+//@   assigns nothing
+
+//@ type StateDB.CreateAccount
+//@   trusted
+//@   assigns nothing
